@@ -6,6 +6,8 @@ C10 - well-formed pages; source text never becomes markup.  Decides the raw-mark
   R10.4 control characters neutralised before re-parsing
   R10.5 reST interpolation in the deprecation extension is validated
   R10.6 templates parse as XML; their renderers and slots exist
+  R10.7 a module's own __docformat__ wins over its package's (which parser sees the text)
+  R10.8 a catch-all handler hands helpers only arguments whose every Union member the helper accepts
 Trusted base: twisted.web.template flattening escapes text/attribute values; docutils' encode/attval/starttag escape.
 """
 from __future__ import annotations
@@ -269,6 +271,87 @@ def run(repo: Repo, chk: Check, thorough: bool = False) -> None:
     if n_t < 20:
         chk.error(f'R10.6: only {n_t} templates found')
     chk.require('R10.6', 60)
+
+    # ------------------------------------------------------------------ R10.7
+    # which parser sees a docstring decides whether its characters are text or markup: a module that declares its own format
+    # (e.g. plaintext) must not be handed to the parser its package declares (e.g. restructuredtext, with raw / include directives)
+    getter = None
+    for f in repo.funcs.values():
+        if f.cls is not None and f.cls.qn == 'pydoctor.model.Module' and f.name == 'docformat' and \
+                any(isinstance(d, ast.Name) and d.id == 'property' for d in f.node.decorator_list):
+            getter = f
+    if getter is None:
+        raise AnalysisError('R10.7: the Module.docformat property getter was not found')
+    cfd = CFG(getter)
+    own_attr = None
+    # the slot the setter writes (what the AST builder stores for the module's own __docformat__)
+    for st in getter.cls.node.body:  # type: ignore[union-attr]
+        if isinstance(st, ast.FunctionDef) and st.name == 'docformat' and any(norm(d) == 'docformat.setter' for d in st.decorator_list):
+            for n in ast.walk(st):
+                if isinstance(n, ast.Assign) and isinstance(n.targets[0], ast.Attribute) and dotted(n.targets[0].value) == 'self':
+                    own_attr = n.targets[0].attr
+    if own_attr is not None and not any(isinstance(x, ast.Attribute) and x.attr == own_attr and dotted(x.value) == 'self'
+                                        for n in getter.walk() if isinstance(n, ast.Return) and n.value is not None for x in ast.walk(n.value)):
+        own_attr = None
+    inherited = [n for n in getter.walk() if isinstance(n, ast.Return) and n.value is not None and
+                 any(isinstance(x, ast.Attribute) and x.attr == 'parent' for x in ast.walk(n.value))]
+    if own_attr is None or not inherited:
+        raise AnalysisError('R10.7: Module.docformat no longer returns its own value / the value of its package')
+    for r in inherited:
+        facts = cfd.dominating_tests(r)
+        own_unset = any((norm(t) == f'self.{own_attr}' and not pol) or
+                        (isinstance(t, ast.Compare) and norm(t.left) == f'self.{own_attr}' and norm(t.comparators[0]) == 'None' and
+                         ((isinstance(t.ops[0], ast.Is) and pol) or (isinstance(t.ops[0], ast.IsNot) and not pol))) for t, pol in facts)
+        chk.ob('R10.7', 'pydoctor.model.Module.docformat :: the package format is only a default', own_unset,
+               f'`{norm(r)}` is reached only when self.{own_attr} is unset' if own_unset else
+               f'`{norm(r)}` can be returned although the module declares its own __docformat__: a plaintext / epytext module inside a reStructuredText '
+               'package is parsed as reST, its words become elements (raw html included)', repo.loc(getter.mod, r))
+    chk.require('R10.7', 1)
+
+    # ------------------------------------------------------------------ R10.8
+    # a catch-all handler that contains a rendering failure must not fail itself: when it hands a parameter of the enclosing function
+    # to a helper, every class the parameter may be (its Union members) must be accepted by the helper (declared parameter type)
+    n_h = 0
+    for f in sorted(repo.funcs.values(), key=lambda f: f.qn):
+        if '.test' in f.mod.name or not f.mod.name.startswith('pydoctor.'):
+            continue
+        ptypes = {}
+        for p_ in f.params():
+            t_ = repo.ann_type(p_.annotation, f.mod, f.cls or f.outer)
+            insts = sorted(a[1] for a in t_ if a[0] == 'inst')
+            if len(insts) >= 2:
+                ptypes[p_.arg] = insts
+        if not ptypes:
+            continue
+        for n in f.walk():
+            if not isinstance(n, ast.ExceptHandler) or not is_catch_all(n):
+                continue
+            for c in [x for st in n.body for x in ast.walk(st) if isinstance(x, ast.Call)]:
+                callees, how = repo.callees(c, f)
+                if len(callees) != 1 or how not in ('direct', 'method', 'ctor'):
+                    continue
+                g = callees[0]
+                gps = g.params()
+                off = 1 if (gps and gps[0].arg in ('self', 'cls') and how in ('method', 'ctor')) else 0
+                for i, a in enumerate(c.args):
+                    if not (isinstance(a, ast.Name) and a.id in ptypes) or i + off >= len(gps):
+                        continue
+                    want = repo.ann_type(gps[i + off].annotation, g.mod, g.cls or g.outer)
+                    want_insts = [w[1] for w in want if w[0] == 'inst']
+                    if not want_insts:
+                        continue
+                    n_h += 1
+                    bad = [m for m in ptypes[a.id] if m in repo.classes and
+                           not any(repo.is_subclass(repo.classes[m], w) for w in want_insts)]
+                    # narrowed inside the handler?
+                    narrowed = any(isinstance(p, (ast.If, ast.IfExp)) and 'isinstance' in norm(p.test) and a.id in norm(p.test) for p in parents(c))
+                    okh = not bad or narrowed
+                    chk.ob('R10.8', f'{f.qn} :: handler passes `{a.id}` to {g.name}()', okh,
+                           f'every member of {[m.split(".")[-1] for m in ptypes[a.id]]} is a {"/".join(w.split(".")[-1] for w in want_insts)}' if okh else
+                           f'`{a.id}` may be a {bad[0].split(".")[-1]}, which is not a {"/".join(w.split(".")[-1] for w in want_insts)} ({g.name}() declares '
+                           f'`{gps[i + off].arg}: {norm(gps[i + off].annotation) if gps[i + off].annotation is not None else "?"}`): the handler that should contain the '
+                           'failure raises itself (AttributeError), the page is not written', repo.loc(f.mod, c))
+    chk.stats['handler_arguments_checked'] = n_h
 
 
 # ----------------------------------------------------------------------------------------------------------
